@@ -126,11 +126,12 @@ def compare(ctx, mods, n, text):
         if not m.prim:
             continue
         used = any(i.ref == m.name for mm in mods for i in mm.insts)
-        if m.name not in got:
+        pname = m.name.strip()      # a module is known without the blank that ends an escaped identifier
+        if pname not in got:
             if used or m.declared:
-                return "primitive-missing", "primitive %s not in the netlist" % m.name
+                return "primitive-missing", "primitive %r not in the netlist (definitions: %s)" % (pname, sorted(got)[:8])
             continue
-        g = got[m.name]
+        g = got[pname]
         if not m.declared:
             if g["lib"] != "hdi_primitives" or not g["primitive"]:
                 return "undeclared-primitive-not-marked", "%s is in %s, VERILOG.primitive=%s" % (m.name, g["lib"], g["primitive"])
